@@ -1967,6 +1967,109 @@ def _see_through_value_memos(mods: dict[str, Module], inv: dict, log: list[str])
             log.append(f"{mod.relpath} {q}: value memo `{cname}[{ktext}]` read as `{ast.unparse(E)[:60]}` ({n_reads} read(s))")
 
 
+def _canonical_foreach(mods: dict[str, Module], log: list[str]) -> None:
+    """Two loop spellings are read as the for-each loop they stand for:
+    (1) `i = a; while i < n: BODY; i += 1` (i not otherwise stored in BODY, no break/continue, i dead afterwards) is `for i in range(a, n): BODY`;
+    (2) `for i in range(len(X))` / `range(0, len(X))` whose body uses `i` only as `X[i]` (X a pure expression nothing in the body can change, possibly a
+        `tuple(Y)` / `list(Y)` snapshot of such a Y) is `for x in X` with `x` for `X[i]`."""
+    n1 = n2 = 0
+    uid = 0
+    for mod in mods.values():
+        for q, _, fn in _functions_of(mod):
+            # (1)
+            work: list[ast.AST] = [fn]
+            while work:
+                node = work.pop()
+                for fld in ("body", "orelse", "finalbody"):
+                    b = getattr(node, fld, None)
+                    if not (isinstance(b, list) and b and isinstance(b[0], ast.stmt)):
+                        continue
+                    k = 0
+                    while k < len(b):
+                        st = b[k]
+                        if isinstance(st, ast.While) and not st.orelse and isinstance(st.test, ast.Compare) and len(st.test.ops) == 1 and isinstance(st.test.ops[0], ast.Lt) \
+                                and isinstance(st.test.left, ast.Name) and st.body and not any(isinstance(x, (ast.Break, ast.Continue, ast.Return)) for x in ast.walk(st)):
+                            iv = st.test.left.id
+                            bound = st.test.comparators[0]
+                            last = st.body[-1]
+                            inc = (isinstance(last, ast.AugAssign) and isinstance(last.op, ast.Add) and isinstance(last.target, ast.Name) and last.target.id == iv
+                                   and isinstance(last.value, ast.Constant) and last.value.value == 1) or \
+                                  (isinstance(last, ast.Assign) and len(last.targets) == 1 and isinstance(last.targets[0], ast.Name) and last.targets[0].id == iv
+                                   and ast.unparse(last.value) in (f"{iv} + 1", f"1 + {iv}"))
+                            stores_in_body = sum(1 for s2 in st.body[:-1] for x in ast.walk(s2) if isinstance(x, ast.Name) and x.id == iv and isinstance(x.ctx, ast.Store))
+                            # the initialisation: the closest earlier sibling that stores iv, a literal int, nothing in between reads or stores it
+                            init = None
+                            for j in range(k - 1, -1, -1):
+                                if any(isinstance(x, ast.Name) and x.id == iv for x in ast.walk(b[j])):
+                                    if isinstance(b[j], ast.Assign) and len(b[j].targets) == 1 and isinstance(b[j].targets[0], ast.Name) and b[j].targets[0].id == iv \
+                                            and isinstance(b[j].value, ast.Constant) and type(b[j].value.value) is int:
+                                        init = j
+                                    break
+                            after = any(isinstance(x, ast.Name) and x.id == iv for s2 in b[k + 1:] for x in ast.walk(s2))
+                            bound_names = {x.id for x in ast.walk(bound) if isinstance(x, ast.Name)}
+                            bound_stable = _pure(bound) and not any(isinstance(x, ast.Name) and x.id in bound_names and isinstance(x.ctx, ast.Store) for s2 in st.body for x in ast.walk(s2)) \
+                                and not any(isinstance(x, ast.Call) and isinstance(x.func, ast.Attribute) and x.func.attr in ("append", "extend", "pop", "remove", "insert", "clear") for s2 in st.body for x in ast.walk(s2))
+                            if inc and stores_in_body == 0 and init is not None and not after and bound_stable:
+                                new = ast.For(target=ast.Name(id=iv, ctx=ast.Store()),
+                                              iter=ast.Call(func=ast.Name(id="range", ctx=ast.Load()), args=[b[init].value, bound] if b[init].value.value != 0 else [bound], keywords=[]),
+                                              body=st.body[:-1] or [ast.Pass()], orelse=[])
+                                ast.copy_location(new, st)
+                                b[k] = new
+                                del b[init]
+                                k -= 1
+                                n1 += 1
+                        k += 1
+                    for st in b:
+                        if not isinstance(st, (*FuncNode, ast.ClassDef)):
+                            work.append(st)
+                if isinstance(node, ast.Try):
+                    work.extend(node.handlers)
+            # (2)
+            for lp in [x for x in ast.walk(fn) if isinstance(x, ast.For)]:
+                it = lp.iter
+                if not (isinstance(lp.target, ast.Name) and isinstance(it, ast.Call) and isinstance(it.func, ast.Name) and it.func.id == "range" and not it.keywords):
+                    continue
+                args = it.args
+                if len(args) == 2 and isinstance(args[0], ast.Constant) and args[0].value == 0:
+                    args = args[1:]
+                if len(args) != 1 or not (isinstance(args[0], ast.Call) and isinstance(args[0].func, ast.Name) and args[0].func.id == "len" and len(args[0].args) == 1):
+                    continue
+                X = args[0].args[0]
+                iv = lp.target.id
+                xt = ast.unparse(X)
+                uses = [x for s2 in lp.body for x in ast.walk(s2) if isinstance(x, ast.Name) and x.id == iv]
+                subs = [x for s2 in lp.body for x in ast.walk(s2) if isinstance(x, ast.Subscript) and isinstance(x.slice, ast.Name) and x.slice.id == iv and ast.unparse(x.value) == xt
+                        and isinstance(x.ctx, ast.Load)]
+                if not uses or len(uses) != len(subs) or not _pure(X):
+                    continue
+                if any(isinstance(x, ast.Name) and x.id == iv for blk in [getattr(p_, f_, []) for p_ in ast.walk(fn) for f_ in ("body", "orelse") if isinstance(getattr(p_, f_, None), list)]
+                       for idx_, s2 in enumerate(blk) if s2 is lp for s3 in blk[idx_ + 1:] for x in ast.walk(s3)):
+                    continue
+                base = X
+                while isinstance(base, ast.Call) and isinstance(base.func, ast.Name) and base.func.id in ("tuple", "list") and len(base.args) == 1 and not base.keywords:
+                    base = base.args[0]
+                names = {x.id for x in ast.walk(base) if isinstance(x, ast.Name)}
+                attrs = {x.attr for x in ast.walk(base) if isinstance(x, ast.Attribute)}
+                if any(isinstance(x, ast.Name) and x.id in names and isinstance(x.ctx, ast.Store) for s2 in lp.body for x in ast.walk(s2)):
+                    continue
+                if any(isinstance(x, ast.Attribute) and x.attr in attrs and isinstance(x.ctx, ast.Store) and not isinstance(getattr(x, "_parent", None), ast.Attribute) for s2 in lp.body for x in ast.walk(s2)):
+                    continue
+                uid += 1
+                en = f"{iv}__elem{uid}" if iv in ("i", "j", "k", "idx", "index", "position", "pos", "n") else f"{iv}__elem{uid}"
+                for x in subs:
+                    x.__class__ = ast.Name
+                    x.__dict__.clear()
+                    x.id, x.ctx = en, ast.Load()
+                lp.target = ast.Name(id=en, ctx=ast.Store())
+                lp.iter = base
+                ast.fix_missing_locations(fn)
+                n2 += 1
+    if n1:
+        log.append(f"{n1} index-driven while loop(s) read as for loops over a range")
+    if n2:
+        log.append(f"{n2} loop(s) over range(len(X)) that only read X[i] read as loops over X")
+
+
 def _apply_trampolines(mods: dict[str, Module], inv: dict, log: list[str]) -> None:
     """A new helper whose whole body is `return f(*args)` - f one of its positional parameters, args its var-positional parameter (a "run this stage and
     log if it fails" wrapper once its re-raising try has been read as its body) - is the call it forwards: `self._run("fit", self.fit, x, y)` is `self.fit(x, y)`."""
@@ -2734,6 +2837,8 @@ def canonicalise(mods: dict[str, Module]) -> dict:
     _unroll_literal_comprehensions(mods, fwd_log)
     _static_attr_access(mods, fwd_log)
     _split_parallel_assign(mods, fwd_log)
+    _Forward(mods, inv, fwd_log).run()
+    _canonical_foreach(mods, fwd_log)
     _Forward(mods, inv, fwd_log).run()
     # displays that only became literal once new locals / constants were substituted
     _unroll_literal_loops(mods, fwd_log)
